@@ -24,8 +24,27 @@ REPLAY_DIR = os.path.join(VERIF, "replays")
 KNOWN_FILE = os.path.join(VERIF, "known_findings.json")
 
 
-class RunTimeout(Exception):
+class RunTimeout(BaseException):
     pass
+
+
+import contextlib
+
+
+@contextlib.contextmanager
+def time_limit(seconds):
+    """Raises RunTimeout inside the block after `seconds` of wall time (nests inside the per-run watchdog)."""
+    old_handler = signal.getsignal(signal.SIGALRM)
+    if old_handler in (signal.SIG_DFL, signal.SIG_IGN, None):
+        signal.signal(signal.SIGALRM, _alarm)
+    t0 = time.time()
+    prev = signal.alarm(int(seconds))
+    try:
+        yield
+    finally:
+        signal.alarm(0)
+        if prev:
+            signal.alarm(max(1, int(prev - (time.time() - t0))))
 
 
 class Ctx:
@@ -495,6 +514,9 @@ def check(mod, ctx, args):
         if "history" in val and len(samples) < 6 and k[1] < 2:
             samples.append({"batch": k[0], "run": k[1], "history": _trim(val["history"]), "digest": val["digest"][:16]})
 
+    if os.environ.get("VERIF_DEBUG_SLOW"):
+        slow = sorted(((res[k][2], k) for k in keys if res[k][0] == "ok"), reverse=True)[:12]
+        print("slowest runs:", [(round(w, 1), k) for w, k in slow])
     if args.dump_digests:
         with open(args.dump_digests, "w") as f:
             json.dump({"%s:%d" % k: v for k, v in sorted(digests.items())}, f, indent=0)
